@@ -252,6 +252,11 @@ func checkCulprit(c CulpritCase) *pk.Failure {
 	hi := lo + uint(utf8.RuneCountInString(c.Bad)) - 1
 	for _, d := range errs {
 		if d.Span.Filename == c.File && !isWholeFile(d.Span) && d.Span.Start.Index <= hi && d.Span.End.Index >= lo {
+			// "lying within the construct that caused it": the span may be the culprit or a part of it, it does
+			// not run on into what follows the culprit
+			if d.Span.Start.Index < lo || d.Span.End.Index > hi {
+				return pk.Failf("culprit", "culprit-overrun:"+c.Rule, "rule %s in %s: the diagnostic %q at %s is not within the culprit %q (runes %d..%d of %s)\n%s", c.Rule, c.Context, d.Message, fmtSpan(d.Span), c.Bad, lo, hi, c.File, modsText(c.Modules))
+			}
 			return nil
 		}
 	}
@@ -271,7 +276,7 @@ var rules = []rule{
 	{"unknown-identifier", `nope + 1`}, {"unknown-function", `nope_fn()`}, {"unknown-member", `"s".nope()`},
 	{"unknown-type", `let v: Nope = 1;`}, {"break-outside-loop", `break;`}, {"list-literal-mixed", `[1, "s"]`},
 	{"index-non-int", `[1]["a"]`}, {"branch-if-else", `if true { 1 } else { "s" }`}, {"match-arms", `match 1 { 1 => 1, _ => "s" }`},
-	{"assignment-type", `vv = "s"`}, {"cast-impossible", `"s" as [int]`}, {"implicit-any", `let q = "1".parse_json();`},
+	{"unknown-singleton", `$Nope`}, {"assignment-type", `vv = "s"`}, {"cast-impossible", `"s" as [int]`}, {"implicit-any", `let q = "1".parse_json();`},
 }
 
 type ctx struct {
